@@ -527,11 +527,41 @@ func ruleR04_4(p *Program, r *Report) {
 	}
 	got := map[string]ssa.Value{}
 	var copyCall *ssa.Call
+	// the restoration may be written out on the edge or live in a helper method called there on the same receiver:
+	// the helper's parameters are then read through their binding at the call
+	bind := map[ssa.Value]ssa.Value{}
+	res := func(v ssa.Value) ssa.Value {
+		if a, ok := bind[v]; ok {
+			return a
+		}
+		return v
+	}
+	instrs := append([]ssa.Instruction{}, eoiBlock.Instrs...)
+	roots := map[ssa.Value]bool{ssa.Value(recv): true}
 	for _, in := range eoiBlock.Instrs {
+		c, ok := in.(*ssa.Call)
+		if !ok {
+			continue
+		}
+		h := c.Common().StaticCallee()
+		if h == nil || h.Blocks == nil || h.Pkg != fn.Pkg || len(h.Params) == 0 || len(c.Common().Args) == 0 || c.Common().Args[0] != ssa.Value(recv) {
+			continue
+		}
+		for i, prm := range h.Params {
+			if i < len(c.Common().Args) {
+				bind[prm] = c.Common().Args[i]
+			}
+		}
+		roots[h.Params[0]] = true
+		for _, hb := range h.Blocks {
+			instrs = append(instrs, hb.Instrs...)
+		}
+	}
+	for _, in := range instrs {
 		switch x := in.(type) {
 		case *ssa.Store:
-			if root, sel := accessPath(x.Addr); root == ssa.Value(recv) {
-				got[sel] = x.Val
+			if root, sel := accessPath(x.Addr); roots[root] {
+				got[sel] = res(x.Val)
 			}
 		case *ssa.Call:
 			if bi, ok := x.Common().Value.(*ssa.Builtin); ok && bi.Name() == "copy" {
@@ -564,7 +594,7 @@ func ruleR04_4(p *Program, r *Report) {
 				why = "the input is not staged at headerBuffer[headerBuffered:]"
 			}
 		}
-		if why == "" && copyCall.Common().Args[1] != savedInput {
+		if why == "" && res(copyCall.Common().Args[1]) != savedInput {
 			why = "what is staged is not the input as it was at entry"
 		}
 		if why == "" {
